@@ -1,6 +1,6 @@
 CFG = {
     "lean_targets": ["Norad.Props.C10"],
-    "extract": "kern_consts",
+    "extract": ["kern_consts", "upconv"],
     "audit": "Norad/Audit/C10.lean",
     "rule": ("generated format 1/2/3 trees whose kerning groups collide after prefixing (up to 12 groups over both sides, pairs among them) and, "
              "for format 1, robofab feature data (0-4 blocks over an 8-tag pool, with/without classes, with/without a featureorder list incl. "
@@ -22,6 +22,7 @@ CFG = {
         "the byte identity of saved trees is observed (hash over sorted path/kind/bytes), not modelled; the model predicts groups, kerning and the features text",
     ],
     "assumptions": [
+        "tools/extract_upconv.py regenerates upconvert_kerning statement by statement (Kern.Gen.*): the two sets are built with BTreeSet::insert in loop order (a set declared with another type is an unknown shape: pinned fallback, and source_iteration_is_ordered reports it); source_sets_eq_model / source_gen_upconvert_order_independent state the order independence of the regenerated pass",
         "tools/extract_kern_consts.py re-extracts the declared collection types of groups_first/groups_second, of the feature-block map (+ whether its keys are sorted), of the Groups/Kerning aliases and of Layer.contents, and the robofab lib keys, on every run; source_iteration_is_ordered fails when one of them is a hashed collection (pinned fallback when an anchor is missing: the sampling remains the tie)",
         "plist::Dictionary keeps insertion (file) order and sort_keys sorts it; dictionaries inside arrays are not sorted by norad and keep file order, which is a function of the input",
     ],
